@@ -940,8 +940,9 @@ def deep_texts(rng, thorough: bool):
             yield "sub-in-key", "d" + "[d" * k + "]" * k
 
 
-MATRIX_CONTEXT = {"vN": None, "vT": True, "vF": False, "vI": 3, "vZ": 0, "vS": "ab", "vE": "", "vL": [1, "a"], "vLL": [[1], [1, 2]],
+MATRIX_CONTEXT = {"vBig": 10 ** 400, "vFz": 0.0, "vN": None, "vT": True, "vF": False, "vI": 3, "vZ": 0, "vS": "ab", "vE": "", "vL": [1, "a"], "vLL": [[1], [1, 2]],
                   "vD": {"ab": 1, "k": [1]}, "vDD": {"k": [1], "ab": True}}
+ARITH_ATOMS = ["vI", "vZ", "vS", "vN", "vL", "vT", "vBig", "vFz", "0", "1", "-1", "0.0", "1.5", "vMissing"]
 MATRIX_ATOMS = ["vN", "vT", "vF", "vI", "vZ", "vS", "vE", "vL", "vLL", "vD", "vDD", "vMissing", "(1, 'a')", "()", "[]", "'a'", "1", "-1",
                 "(vL, 1)", "[vD]"]
 
@@ -965,6 +966,13 @@ def matrix_texts():
             yield f"[{a}] < [{b}]"
             yield f"{a} < {b} <= {a}"
             yield f"-{a} == {b}"
+    # arithmetic / bitwise binary operators are not part of the documented grammar: whatever the evaluator does with them
+    # (reject, or evaluate) no foreign exception may escape - zero divisors, huge operands, non-numeric operands
+    for a in ARITH_ATOMS:
+        for b in ARITH_ATOMS:
+            for op in ("+", "-", "*", "/", "//", "%", "**", "<<", ">>", "|", "&", "^", "@"):
+                yield f"{a} {op} {b}"
+                yield f"{a} {op} {b} > 0"
 
 
 # ======================================================================================
